@@ -256,6 +256,11 @@ func c02Restack(w *fw.Worker, i int, r *fw.Rand) {
 	}
 	defer e.Stop()
 	ctx := e.S.Ctx
+	if r.Bool() {
+		// once Config has returned, the caller reuses (overwrites) its defaults object: later versions must not change
+		e.ScribbleCallerDefaults()
+		w.Count("histories_where_the_caller_overwrote_its_defaults", 1)
+	}
 	type seen struct {
 		cfg   *conc.Cfg
 		where string
@@ -288,6 +293,10 @@ func c02Restack(w *fw.Worker, i int, r *fw.Rand) {
 		res, _ := e.Report(ctx, 0, src, l, true)
 		pattern += fmt.Sprintf("%d%d", src, res)
 		c, _ := e.D.ViewVersion()
+		if fp := conc.FPOf(c); fp.C == -777 || fp.NX == -778 || fp.S == "scribbled-by-the-caller" || fp.NY == "scribbled-by-the-caller" {
+			w.Violation(i, "callers-later-writes-to-its-defaults-show-up-in-a-version", fmt.Sprintf("after Config returned the caller overwrote its own defaults object; version installed by report %d shows %+v", k, fp), nil)
+			return
+		}
 		add(c, "ViewVersion")
 		add(e.D.View(), "View")
 		select {
